@@ -343,7 +343,7 @@ func checkC05(w *World, r *Report) {
 		// what is sent while the actor is down waits in the ring, which may have to grow under it
 		r.Rule("C05.R5", "messages sent during the restart wait in the ring in order: pops, pushes and the grow transfer are sound (C14.R2-R5)", 8)
 		importRules(w, r, checkC14, "C14", "C05.R5", func(o *Obligation) bool {
-			return o.Rule == "C14.R2" || o.Rule == "C14.R3" || o.Rule == "C14.R4" || o.Rule == "C14.R5"
+			return o.Rule == "C14.R1" || o.Rule == "C14.R2" || o.Rule == "C14.R3" || o.Rule == "C14.R4" || o.Rule == "C14.R5"
 		})
 	}
 	pr.lta.export(r, "C05.R2", []string{"incarnation-replaced-without-Stopped", "Initialized-out-of-order", "Started-out-of-order", "user-message-before-Started", "inbox-started-after-cleanup", "restart-buffer-dropped", "unclassified-delivery", "chain-does-not-end-in-the-receiver", "inbox-reopened-by-worker"}, "restart order; every delivery goes to the current incarnation's receiver")
@@ -1111,7 +1111,7 @@ func checkC07(w *World, r *Report) {
 	// "every message accepted before the Poison is handled": the queue they wait in and the replay after a crash
 	r.Rule("C07.R8", "messages queued before a Poison reach the actor: ring transfers are sound (C14.R2-R5) and the crash buffer is rebuilt from the cursor on every path and replayed first (C05.R2/R3)", 8)
 	importRules(w, r, checkC14, "C14", "C07.R8", func(o *Obligation) bool {
-		return o.Rule == "C14.R2" || o.Rule == "C14.R3" || o.Rule == "C14.R4" || o.Rule == "C14.R5"
+		return o.Rule == "C14.R1" || o.Rule == "C14.R2" || o.Rule == "C14.R3" || o.Rule == "C14.R4" || o.Rule == "C14.R5"
 	})
 	importRules(w, r, checkC05, "C05", "C07.R8", func(o *Obligation) bool {
 		return o.Rule == "C05.R3" && strings.Contains(o.Key, "buffer-from-cursor") || o.Rule == "C05.R2" && (strings.Contains(o.Key, "replay-before-inbox") || strings.Contains(o.Key, "clears-replayed-buffer"))
